@@ -7,6 +7,7 @@ CONSTANT Deltas <- Empty
 CONSTANT Factors <- Empty
 CONSTANT Divisors <- Empty
 CONSTANT Halves <- Empty
+CONSTANT Thrower = FALSE
 CONSTANT MaxLen = 3
 INVARIANTS TypeOK ExactlyOnce NewValue
 PROPERTY ChangeNotifies
